@@ -25,6 +25,8 @@ type Explored struct {
 	Exit    int     `json:"exit"`
 	Ks      []int   `json:"ks"`
 	Outs    []RecoverOut `json:"outs"`
+	Pre     []QBucket    `json:"pre,omitempty"`
+	Double  []DoubleCrash `json:"double,omitempty"` // C34: crashes during the recovery of selected images
 	Err     string  `json:"err,omitempty"`
 }
 
@@ -91,6 +93,19 @@ func optsFor(prop string, tier string, i int, r *rng.Rand) GenOpts {
 		case 2:
 			o.Ckpt = true
 		}
+	case "C05":
+		// checkpoints and rotations between the requests
+		o.Ckpt = true
+		o.Clean = i%2 == 0
+		o.MaxSteps = 9
+	case "C35":
+		o.Shutdown = true
+		o.Ckpt = i%2 == 1
+		o.Clean = i%3 != 2
+	case "C34":
+		o.Clean = true
+		o.Ckpt = i%3 == 2
+		o.MaxSteps = 4
 	}
 	return o
 }
@@ -100,7 +115,7 @@ func kindOf(prop string) string {
 	case "C01", "C02", "C03":
 		return "sync"
 	}
-	return prop
+	return prop // C05 (checkpointed), C35 (shutdown), C34 (double crash), C04 (power loss) have their own sets
 }
 
 func maxPrefixes(tier string) int {
@@ -111,21 +126,27 @@ func maxPrefixes(tier string) int {
 }
 
 // explore one history end to end (no cache).
-func exploreHistory(h History, dir string, tier string, workers int) Explored {
+func exploreHistory(h History, dir string, tier string, workers int, kind string) Explored {
 	ex := Explored{History: h}
 	rec, err := Record(&h, dir, false)
 	if err != nil {
 		ex.Err = "record: " + err.Error()
 		return ex
 	}
-	ex.Ops, ex.Exit = rec.Ops, rec.Exit
+	ex.Ops, ex.Exit, ex.Pre = rec.Ops, rec.Exit, rec.Pre
 	root := filepath.Join(dir, "root")
 	if a, err := filepath.Abs(root); err == nil {
 		root = a
 	}
 	d := Decode(ex.Ops, root, h.VrlOf, nil)
 	ex.Ks = Prefixes(d, maxPrefixes(tier))
+	if kind == "C35" {
+		ex.Ks = []int{len(ex.Ops)} // only the final image matters (all prefixes are C01-C03's business)
+	}
 	obs := Explore(&h, d, ex.Ops, ex.Ks, filepath.Join(dir, "img"), workers)
+	if kind == "C34" {
+		ex.Double = ExploreDouble(&h, d, ex.Ops, root, filepath.Join(dir, "dbl"), tier)
+	}
 	for _, o := range obs {
 		ex.Outs = append(ex.Outs, o.Raw)
 		if o.Err != "" && o.Raw.Class == "" {
@@ -249,7 +270,7 @@ func DriverMain(prop string, args []string) int {
 			sem <- struct{}{}
 			defer func() { <-sem }()
 			work := filepath.Join(scratch, fmt.Sprintf("crashrun.%d.%d", os.Getpid(), i))
-			exs[i] = exploreHistory(items[i].h, work, *tier, 6)
+			exs[i] = exploreHistory(items[i].h, work, *tier, 6, kindOf(prop))
 			if exs[i].Err == "" {
 				b, _ := json.Marshal(exs[i])
 				tmp := cf + fmt.Sprintf(".%d", os.Getpid())
@@ -293,8 +314,26 @@ func DriverMain(prop string, args []string) int {
 		if len(d.Errs) > 0 {
 			l.Err += " decode: " + strings.Join(d.Errs[:min(3, len(d.Errs))], "; ")
 		}
+		double := "[]"
+		if prop == "C34" {
+			var dfails []FailRow
+			var clen2 []ClenEnt
+			var derrs []string
+			double, dfails, clen2, derrs = h.DoubleTerm(d, ex.Double)
+			d.Clen = append(d.Clen, clen2...)
+			l.Fails = append(l.Fails, dfails...)
+			if len(derrs) > 0 {
+				l.Err += " double: " + strings.Join(derrs[:min(3, len(derrs))], "; ")
+			}
+			for _, dc := range ex.Double {
+				l.Prefixes += len(dc.Js)
+			}
+		}
 		// oracle
 		classes := map[string]int{}
+		for _, f := range l.Fails {
+			classes[f.Class]++
+		}
 		for _, o := range obs {
 			var fl []Verdict
 			switch prop {
@@ -304,6 +343,12 @@ func DriverMain(prop string, args []string) int {
 				fl = h.OracleC02(d, o)
 			case "C03":
 				fl = h.OracleC03(d, o)
+			case "C05":
+				fl = append(h.OracleC01(d, o), h.OracleC03(d, o)...)
+			case "C35":
+				fl = h.OracleC35(d, o, ex.Pre)
+			case "C34":
+				fl = h.OracleC01(d, o)
 			}
 			for _, v := range fl {
 				l.Fails = append(l.Fails, FailRow{o.K, v.Class, v.Detail})
@@ -316,7 +361,7 @@ func DriverMain(prop string, args []string) int {
 			sort.SliceStable(l.Fails, func(a, b int) bool { return l.Fails[a].Class < l.Fails[b].Class })
 			l.Class, l.Detail = l.Fails[0].Class, l.Fails[0].Detail
 		}
-		l.Prefixes, l.Events = len(ex.Ks), len(d.Evs)
+		l.Prefixes, l.Events = l.Prefixes+len(ex.Ks), len(d.Evs)
 		l.Tags = histTags(h, d)
 		l.Nontrivial = len(d.Evs) > 20
 		l.InDomain = true
@@ -330,7 +375,7 @@ func DriverMain(prop string, args []string) int {
 			vw.WriteString(";\n")
 		}
 		first = false
-		vw.WriteString(CaseTerm(h, d, sched, obs, Tgid0(d)))
+		vw.WriteString(CaseTerm(h, d, sched, obs, Tgid0(d), double))
 	}
 	vw.WriteString("\n].\n")
 	vw.Flush()
